@@ -392,6 +392,31 @@ func init() {
 	opTable["teibulk"] = func(s *Session, a []string) string {
 		return runTEIBulk(atoi(a[0]), unhexOrDash(a[2]), atoi(a[1]))
 	}
+	// teidef <hex>: an engine as NewEngine leaves it (NO ConfigFactory: the built-in configuration) on a stream of several
+	// games, every `go` on a position with a win in one (the unbounded default search ends at depth 1): per `go`, was a
+	// bestmove printed that wins at once?
+	opTable["teidef"] = func(s *Session, a []string) string {
+		var out bytes.Buffer
+		e := tei.NewEngine(&chunkReader{b: unhexOrDash(a[0]), n: 1 << 20}, &out)
+		class := "ok"
+		func() {
+			defer func() {
+				if r := recover(); r != nil {
+					class = "panic"
+				}
+			}()
+			if err := e.Run(context.Background()); err != nil {
+				class = "err"
+			}
+		}()
+		n := 0
+		for _, l := range strings.Split(out.String(), "\n") {
+			if strings.HasPrefix(l, "bestmove ") {
+				n++
+			}
+		}
+		return class + " bestmoves=" + strconv.Itoa(n)
+	}
 	opTable["teiclass"] = func(s *Session, a []string) string {
 		return runTEI(atoi(a[0]), unhexOrDash(a[1]), false).render(true)
 	}
